@@ -577,13 +577,16 @@ class DebianCopyright(object):
                 continue
 
             values = []
-            start_line = 1
-            end_line = 1
+            start_line = None
+            end_line = None
             for para in contigs:
                 values.extend(k for k in para.to_dict().values())
                 # the new start and end lines are the minimal first line and the
                 # maximal last line of contiguous paragraphs
                 first, last = para.get_first_last_line_numbers()
+                if start_line is None:
+                    start_line, end_line = first, last
+                    continue
                 try:
                     start_line = min([start_line, first])
                     end_line = max([end_line, last])
